@@ -210,10 +210,9 @@ def variants(ang):
             for v in (0, 1):
                 # condition after both writes: must read qb's outcome
                 out.append(("bit_written_twice", {"n": 3, "ops": prep3 + two + [["if", c, v, [["x", t]]]]}))
-                out.append(("bit_written_twice", {"n": 3, "ops": prep3 + two + [["ifelse", c, v, [["x", t]], [["h", t]]]]}))
                 # a condition between the writes (reads qa's outcome) and one after them (reads qb's), non-commuting bodies
-                for w in (0, 1):
-                    out.append(("bit_written_twice", {"n": 3, "ops": prep3 + [two[0], ["if", c, v, [["x", t]]], two[1], ["if", c, w, [["ry", t, ang[2]]]]]}))
+                out.append(("bit_written_twice", {"n": 3, "ops": prep3 + [two[0], ["if", c, v, [["x", t]]], two[1], ["if", c, 1, [["ry", t, ang[2]]]]]}))
+            out.append(("bit_written_twice", {"n": 3, "ops": prep3 + two + [["ifelse", c, 1, [["x", t]], [["h", t]]]]}))
     out.append(("gate_after_measure", {"n": 1, "ops": [["h", 0], ["measure", 0, 0], ["x", 0]]}))
     out.append(("gate_after_measure", {"n": 2, "ops": [["h", 0], ["measure", 0, 0], ["cz", 0, 1]]}))
     return out
